@@ -248,6 +248,22 @@ def load(path_kind, lines, nt, scratch):
         if path_kind == "warm-cache":
             r = pint.UnitRegistry(p, cache_folder=cf, **kw)
         return r
+    if path_kind == "cache-from-another-process":
+        # the disk cache is written by ANOTHER interpreter (its own string-hash salt) and read here
+        import subprocess
+        import sys
+
+        p = os.path.join(scratch, "defs.txt")
+        with open(p, "w", encoding="utf-8") as fh:
+            fh.write("\n".join(lines) + "\n")
+        cf = os.path.join(scratch, "cache")
+        child = "import sys; sys.path.insert(0, sys.argv[1]); import pint, decimal, fractions; nit = {'float': float, 'Decimal': decimal.Decimal, 'Fraction': fractions.Fraction}[sys.argv[4]]; pint.UnitRegistry(sys.argv[2], cache_folder=sys.argv[3], **({} if nit is float else {'non_int_type': nit}))"
+        env = dict(os.environ)
+        env["PYTHONHASHSEED"] = "12345"
+        r = subprocess.run([sys.executable, "-W", "ignore", "-c", child, core.REPO, p, cf, nt], capture_output=True, text=True, env=env, timeout=300)
+        if r.returncode != 0:
+            raise core.HarnessError("child interpreter failed: " + r.stderr[-300:])
+        return pint.UnitRegistry(p, cache_folder=cf, **kw)
     if path_kind == "import-edited":
         # a main file importing a second one, loaded through the disk cache; then ONLY the imported file is edited
         # and the registry is built again from the same cache folder: the cache must notice
@@ -291,7 +307,7 @@ def load(path_kind, lines, nt, scratch):
 
 
 LAYOUTS = ["plain", "spaces", "comments", "tabs"]
-PATHS = ["lines", "file", "import", "cold-cache", "warm-cache", "define", "import-early", "import-edited"]
+PATHS = ["lines", "file", "import", "cold-cache", "warm-cache", "define", "import-early", "import-edited", "cache-from-another-process"]
 
 
 def diff_keys(a, b, skip=()):
@@ -312,6 +328,8 @@ def run_generated(acc, mi, nt, tier):
         combos = list(itertools.product(LAYOUTS, PATHS))
         for pi, perm in enumerate(itertools.permutations(free[:nfree])):
             lay, path = combos[pi % len(combos)]
+            if path == "cache-from-another-process" and lay != "plain":
+                path = "warm-cache"  # a child interpreter costs seconds: one layout is enough for a path that differs in the PROCESS only
             lines = HEAD[:1] + list(perm[:2]) + HEAD[1:] + BASE + list(perm[2:]) + fixed_free + tails
             text = layout(lines, lay)
             sub = os.path.join(scratch, f"p{pi}")
@@ -584,7 +602,7 @@ MANIFEST = {
     "text": "The bundled files are compared entry by entry with R1 (every spelling -> unit, symbol, aliases, converter kind and offset, every prefix spelling and value, transitive group and system membership, "
     "context names/aliases/defaults/rule counts, defaults). Three generated 34-line definition files (prefixes, base/derived units in a DAG with rational factors, placeholder symbol, aliases on the unit line and on @alias lines — probed bare, prefixed by name and by symbol, and pluralised —, an offset and a log "
     "unit, four groups with 'using' (incl. two that use two groups at once, the default group first and last), a system with both rule forms, a context with defaults/rules/redefinition, defaults) are loaded in EVERY permutation of 5 (6 thorough) free unit/prefix lines, cycling through 4 "
-    "layouts x 8 loading paths (lines, file, @import split, cold and warm disk cache, one define() per statement, an imported file edited between two cached loads) in float, Decimal and Fraction: a 67-key read-only observation vector must equal R1's reading "
+    "layouts x 9 loading paths (lines, file, @import split, cold and warm disk cache, one define() per statement, an imported file edited between two cached loads, a disk cache written by another interpreter process with another hash salt) in float, Decimal and Fraction: a 67-key read-only observation vector must equal R1's reading "
     "(names, symbols, dimensionality, exact factors, roots, memberships) and the canonical loading's vector (conversions, system base units, context conversions, listings). 36 ill-formed shapes x 2 positions x 2 "
     "types must raise at load or first use.",
     "note": "Trusted: R1. System base-unit choice and context arithmetic are only compared across loadings here (absolute semantics: C14, C11). define()-after-construction listings are C13's subject and are not "
